@@ -14,6 +14,8 @@ vr = VR.run_verus(p, rlimit=u.cfg.get("rlimit"), use_cache=False)
 n = 0
 for d in vr['diags']:
     if d['level'] == 'error' and not d['message'].startswith('aborting'):
+        if os.environ.get("NOCANARY", "1") == "1" and any(r['kind'] in ('canary',) and r['lo'] <= (sp.get('line_start') or 0) <= r['hi'] for sp in d.get('spans', []) if sp.get('is_primary') for r in u.gen.regions):
+            continue
         n += 1
         if n <= int(os.environ.get("N", "12")):
             print(d['rendered'])
